@@ -80,6 +80,8 @@ pub enum Op {
     Tick,
     PolicyStep,
     Drain { clear_first: bool },
+    /// n inserts (cost 1, no TTL) round-robin over the keys, issued back to back
+    Bulk { n: u32 },
     /// E2: run `actions` at the `nth` occurrence of yield point `at` while `then` executes
     Interpose { at: String, nth: usize, actions: Vec<Op>, then: Box<Op> },
 }
@@ -263,6 +265,8 @@ pub struct Report {
     pub failures: Vec<Failure>,
     pub feats: Feats,
     pub trace: Vec<String>,
+    /// indices (into case.ops) of the inserts the validator vetoed
+    pub vetoed_ops: Vec<usize>,
 }
 
 const P_C01: &[&str] = &["C01"];
@@ -304,6 +308,8 @@ pub struct Interp<'a> {
     all_deadlines: Vec<i64>,
     interposed_serial_base: u32,
     in_interposed_op: bool,
+    pub cur_op: usize,
+    vetoed_ops: Vec<usize>,
     /// values written before a remove() that returned Ok: dead at the next quiescent point at the latest
     kills_at_quiescence: Vec<Val>,
     any_err: bool,
@@ -396,6 +402,8 @@ impl<'a> Interp<'a> {
             all_deadlines: Vec::new(),
             interposed_serial_base: 0,
             in_interposed_op: false,
+            cur_op: 0,
+            vetoed_ops: Vec::new(),
             kills_at_quiescence: Vec::new(),
             any_err: false,
             halted: false,
@@ -1485,6 +1493,7 @@ impl<'a> Interp<'a> {
             Path::Absent | Path::Veto => {
                 if matches!(path, Path::Veto) {
                     self.feats.vetoes += 1;
+                    self.vetoed_ops.push(self.cur_op);
                     if self.m.store.get(&index).map(|e| e.ttl != 0).unwrap_or(false) || ttl != 0 {
                         self.feats.vetoes_ttl += 1;
                     }
@@ -2198,6 +2207,12 @@ impl<'a> Interp<'a> {
             Op::Remove { k } => self.op_remove(*k % self.nkeys()),
             Op::Get { k } => self.op_get(*k % self.nkeys(), false, None),
             Op::GetMut { k, write } => self.op_get(*k % self.nkeys(), true, *write),
+            Op::Bulk { n } => {
+                let nk = self.nkeys();
+                for i in 0..*n as u64 {
+                    self.op_insert(i % nk, 1, 0, 0, false);
+                }
+            }
             Op::GetTtl { k } => self.op_get_ttl(*k % self.nkeys()),
             Op::GetHold { k, dt } => self.op_get_hold(*k % self.nkeys(), *dt),
             Op::UpdateMaxCost { m } => self.op_update_max_cost(*m),
@@ -2230,7 +2245,7 @@ impl<'a> Interp<'a> {
         }
         let is_client = matches!(
             op,
-            Op::Insert { .. } | Op::InsertIfPresent { .. } | Op::Remove { .. } | Op::Get { .. } | Op::GetHold { .. } | Op::GetMut { .. } | Op::UpdateMaxCost { .. } | Op::Clear { .. }
+            Op::Insert { .. } | Op::Bulk { .. } | Op::InsertIfPresent { .. } | Op::Remove { .. } | Op::Get { .. } | Op::GetHold { .. } | Op::GetMut { .. } | Op::UpdateMaxCost { .. } | Op::Clear { .. }
         );
         if quiesce && is_client {
             self.drain(false);
@@ -2277,6 +2292,7 @@ impl<'a> Interp<'a> {
             failures: self.failures,
             feats: self.feats,
             trace: self.trace,
+            vetoed_ops: self.vetoed_ops,
         }
     }
 }
@@ -2291,10 +2307,11 @@ fn ev_cost(e: &Ev) -> Option<i64> {
 pub fn run_case(case: &Case, want_trace: bool) -> Result<Report, String> {
     let mut it = Interp::new(&case.cfg, want_trace)?;
     let mut last_clear_first = false;
-    for op in case.ops.iter() {
+    for (i, op) in case.ops.iter().enumerate() {
         if let Op::Drain { clear_first } = op {
             last_clear_first = *clear_first;
         }
+        it.cur_op = i;
         it.exec(op);
     }
     it.finish(last_clear_first);
